@@ -6,7 +6,7 @@ from .engine import Unsupported, Mir
 from . import harness
 from .harness import Inconclusive, run_queries, load_known_findings, VERIF
 
-PROPS = {'C20': 'c20', 'C15': 'c15', 'C02': 'c02', 'C14': 'c14', 'C17': 'c17', 'C18': 'c18', 'C06': 'c06', 'C01': 'c01', 'C05': 'c05', 'C09': 'c09', 'C08': 'c08'}
+PROPS = {'C01': 'c01', 'C20': 'c20', 'C15': 'c15', 'C02': 'c02', 'C14': 'c14', 'C17': 'c17', 'C18': 'c18', 'C06': 'c06', 'C05': 'c05', 'C09': 'c09', 'C08': 'c08'}
 
 _mir_cache = {}
 def worker_mir(default_features):
@@ -24,6 +24,13 @@ def run_cube(args):
             rec = mod.run_cube_custom(mir, cube, tier, replay_dir); rec['cube'] = name
             return rec
         eng, world, base, queries = mod.build(mir, cube)
+        if 'qslice' in cube:
+            # the obligations of one cube are spread over several workers (each re-encodes, then solves its share)
+            i, n = cube['qslice']
+            pre = [q for q in queries if q.kind in ('unwind', 'obligation') or q.name == 'no-panic']
+            rest = [q for q in queries if q not in pre]
+            queries = (pre if i == 0 else []) + [q for k, q in enumerate(rest) if k % n == i]
+            name = f'{name}#{i}'
         t1 = time.time()
         known = load_known_findings(prop)
         rec = run_queries(base, queries, mir, timeout_ms, getattr(world, 'has_fc', False), prop, name, known, replay_dir)
@@ -58,6 +65,8 @@ def main(argv):
         print(f'INCONCLUSIVE property={prop}: MIR dump failed: {e}'); write_evidence(prop, tier, seed, None, [], [f'MIR dump failed: {e}'], time.time() - t0, {}); return 2
     has_fc = 'fast_check' in (mir.structs.get('JsModule') or [])
     cubes = mod.cubes(tier, has_fc)
+    nsl = getattr(mod, 'QUERY_SLICES', 1)
+    if nsl > 1: cubes = [dict(c, qslice=(i, nsl)) for c in cubes for i in range(nsl)]
     timeout_ms = int(os.environ.get('VERIF_QUERY_TIMEOUT_S', '240' if tier == 'quick' else '1500')) * 1000
     replay_dir = os.environ.get('VERIF_CEX', os.path.join(VERIF, 'counterexamples'))
     try: harness.build_replay(has_fc)
